@@ -121,6 +121,10 @@ func main() {
 							edits = append(edits, edit{off(x.Pos()), off(fl.Pos()), "vGoInt("})
 							edits = append(edits, edit{off(fl.End()), off(x.Call.End()), ", " + text(x.Call.Args[0]) + ")"})
 						}
+					} else if isRestartFile && len(x.Call.Args) == 0 {
+						// `go recv.method()` (a rewrite of `go func(){ recv.method() }()`): captured as well
+						edits = append(edits, edit{off(x.Pos()), off(x.Call.Pos()), "vGo(func() { "})
+						edits = append(edits, edit{off(x.Call.End()), off(x.Call.End()), " })"})
 					}
 				case *ast.SelectStmt:
 					// R11: a scheduling point before every select of the hot-restart checkers and the pool watchers
